@@ -86,6 +86,10 @@ class C05(Check):
                 meta.append(("avro.codec", codec.encode()))
             for k, v in concase.gen_metadata(d).items():
                 meta.append((k, v.encode()))
+            binary_meta = d.p(0.2)
+            if binary_meta:
+                # header values are bytes in the specification: not necessarily text
+                meta.append((d.choice(["bin", "user.blob", "x"]), d.choice([b"\xff\xfe", b"\x80", b"\xc3", b"\x00\xff\x00", bytes(range(256))])))
             order = d.i(3)
             if order == 1:
                 meta.reverse()
@@ -116,7 +120,7 @@ class C05(Check):
                 "expected": [norm for _, norm in encs],
                 "layout": [list(x) for x in layout],
                 "codec": codec,
-                "facts": {"empty": 0 in part, "chunks": len(chunks), "neg": any(n for _, n in chunks), "key": with_key},
+                "facts": {"empty": 0 in part, "chunks": len(chunks), "neg": any(n for _, n in chunks), "key": with_key, "binary_meta": binary_meta},
             }
 
         @st.composite
@@ -233,6 +237,8 @@ class C05(Check):
             labels.add("ref2fa:chunked-header")
         if not f["key"]:
             labels.add("ref2fa:no-codec-key")
+        if f.get("binary_meta"):
+            labels.add("ref2fa:binary-metadata-value")
         labels.add("ref2fa:codec:" + case["codec"])
         got = guard("read-foreign-file", lambda: list(fastavro.reader(io.BytesIO(data))))
         if len(got) != len(exp) or not all(B.same(g, e) for g, e in zip(got, exp)):
